@@ -333,12 +333,19 @@ STRATEGIES = {
 }
 
 
-def _run(strategy, kernel, blobs, seed, n_iter=None, n_total=48, hole="gauss"):
+def _run(strategy, kernel, blobs, seed, n_iter=None, n_total=48, hole="gauss", observe=False):
     with int_pool_patched():
-        return _run_inner(strategy, kernel, blobs, seed, n_iter, n_total, hole)
+        return _run_inner(strategy, kernel, blobs, seed, n_iter, n_total, hole, observe)
 
 
-def _run_inner(strategy, kernel, blobs, seed, n_iter=None, n_total=48, hole="gauss"):
+def _run_inner(strategy, kernel, blobs, seed, n_iter=None, n_total=48, hole="gauss", observe=False):
+    """One seeded run driven through the PUBLIC API only: the constructor, `Sampler.sample()`, `Sampler.state` (StateManager's public
+    set_current / get_history / compute_logw_and_logz) and an instrumented USER likelihood.  The state is initialised the way a fresh run
+    does (iter, calls, beta, logz) through the public StateManager; the loop is the harness's own fixed protocol (iterate until beta has
+    reached 1 for three iterations, at most 40) — identical for every strategy, so it does not matter whether it is the sampler's own
+    stopping rule.  Nothing private is called or wrapped, so the property oracles cannot be broken by a signature change.
+    `observe=True` (correspondence suites ONLY) additionally wraps the mutator's likelihood hook, with pass-through of whatever
+    arguments it is given, to count the batches per iteration."""
     from tempest import Sampler
     st = STRATEGIES[strategy]
     like = CountingLike(blobs, hole)
@@ -350,22 +357,25 @@ def _run_inner(strategy, kernel, blobs, seed, n_iter=None, n_total=48, hole="gau
                 blobs_dtype=("f8" if blobs else None), n_steps=1, n_max_steps=2)
     trace = []
     batches = []
-    orig_ll = s._core.mutator.log_likelihood
+    if observe:
+        orig_ll = s._core.mutator.log_likelihood
 
-    def rec_ll(x):
-        batches.append(len(x))
-        return orig_ll(x)
-    s._core.mutator.log_likelihood = rec_ll
+        def rec_ll(x, *args, **kwargs):
+            batches.append(len(x))
+            return orig_ll(x, *args, **kwargs)
+        s._core.mutator.log_likelihood = rec_ll
     np.random.seed(seed)
     with _quiet(), warnings.catch_warnings():
         warnings.simplefilter("ignore")
-        s._core._initialize_fresh()
-        s._core.n_total = n_total
-        k = 0
-        while s._core._not_termination() and k < 40:
+        for key, v0 in (("iter", 0), ("calls", 0), ("beta", 0.0), ("logz", 0.0)):
+            s.state.set_current(key, v0)
+        k = at_one = 0
+        while k < 40 and at_one < 3:
             cur = s.sample()
             k += 1
-            trace.append((float(cur["beta"]), int(cur["steps"]), int(cur["calls"]), like.n, len(batches)))
+            trace.append((float(cur["beta"]), int(cur["steps"]), int(cur["calls"]), like.n, len(batches) if observe else None))
+            if 1.0 - float(cur["beta"]) < 1e-4:
+                at_one += 1
     if hasattr(pool, "terminate"):
         pool.terminate()
         pool.join()
@@ -505,7 +515,7 @@ def calls_correspondence(drv, cases, corr):
         name, kernel, blobs, seed = case[:4]
         target = case[4] if len(case) > 4 else "gauss"
         try:
-            _, trace = _run(name, kernel, blobs, seed, hole=target)
+            _, trace = _run(name, kernel, blobs, seed, hole=target, observe=True)
         except Exception as e:  # noqa
             if target in NONFINITE_TARGETS:
                 corr.count("non-finite target: run raised " + type(e).__name__)     # degenerate weights may abort a run; not a statement of C13
@@ -851,7 +861,7 @@ def suite_evaluate_likelihood(drv, tier):
 
 
 # ----------------------------------------------------------------------------- whole runs: run() to completion, resumed runs
-def _full_run(spec, workdir):
+def _full_run(spec, workdir, observe=True):
     """Sampler.run() to completion under spec; one record per call of run(): history of `calls`, rows of every batch handed to
     _log_like, number of batches and the instrumented likelihood's counter at every commit and at the end, and which
     initialisation the real run_sampling performed.  spec["resume"]:
@@ -872,18 +882,19 @@ def _full_run(spec, workdir):
         obs = {"sizes": [], "counted_at": [], "nb_at": [], "init": []}
         orig = s._core.mutator.log_likelihood
 
-        def rec(x):
+        def rec(x, *args, **kwargs):
             obs["sizes"].append(len(x))
-            return orig(x)
-        s._core.mutator.log_likelihood = rec
-        orig_commit = s.state.commit_current_to_history
+            return orig(x, *args, **kwargs)
+        if observe:                                   # correspondence only: private hook, pass-through of any arguments
+            s._core.mutator.log_likelihood = rec
+        orig_commit = s.state.commit_current_to_history      # public StateManager method
 
         def commit(*a, **k):
             obs["counted_at"].append(like.n)
             obs["nb_at"].append(len(obs["sizes"]))
             return orig_commit(*a, **k)
         s.state.commit_current_to_history = commit
-        for name in ("_initialize_fresh", "_initialize_from_resume"):
+        for name in (("_initialize_fresh", "_initialize_from_resume") if observe else ()):
             def spy(*a, _o=getattr(s._core, name), _n=name, **k):
                 obs["init"].append(_n)
                 return _o(*a, **k)
@@ -963,13 +974,13 @@ def _kinds(rec):
     return out
 
 
-def _whole_runs(specs):
+def _whole_runs(specs, observe=True):
     import shutil
     import tempfile
     for spec in specs:
         workdir = tempfile.mkdtemp(prefix="c13_")
         try:
-            yield spec, _full_run(spec, workdir), None
+            yield spec, _full_run(spec, workdir, observe), None
         except Exception as e:  # noqa
             yield spec, [], e
         finally:
@@ -1001,7 +1012,7 @@ def _whole_run_property(spec, recs):
 
 def whole_run_property_violations(specs):
     bad = []
-    for spec, recs, _err in _whole_runs(specs):
+    for spec, recs, _err in _whole_runs(specs, observe=False):      # public API + instrumented user likelihood only
         bad += _whole_run_property(spec, recs)
     return bad
 
@@ -1138,11 +1149,30 @@ def suite_pipeline_strategies(drv, tier):
     return c
 
 
+def _guarded(name, fn, *args):
+    """a suite that reaches into private methods may stop fitting the code (changed signature, moved hook): that is an abort of
+    THAT correspondence suite — a broken obligation followed by the model-free search — not a crash of the whole check"""
+    try:
+        return fn(*args)
+    except (common.LeanError, OSError, TimeoutError):
+        raise
+    except Exception as e:  # noqa
+        import traceback
+        tb = traceback.extract_tb(e.__traceback__)[-1]
+        c = Corr(name, "aborted")
+        c.case("abort", True)
+        c.disagree(input="suite " + name, impl=f"the instrumented call no longer fits the code: {type(e).__name__}: {e} "
+                   f"(at {tb.filename.rsplit('/', 1)[-1]}:{tb.lineno})", model="observable at the modelled points", kind="correspondence-abort")
+        return c
+
+
 def correspond(tier):
     drv = common.Driver()
     rng = common.rng_for("C13")
-    out = [suite_dispatch(drv, tier), suite_steps(drv, tier), suite_assembly(drv, tier), suite_wrapper(drv, tier),
-           suite_evaluate_likelihood(drv, tier), suite_pipeline_strategies(drv, tier)]
+    out = [_guarded("dispatch-table", suite_dispatch, drv, tier), _guarded("adaptive-steps", suite_steps, drv, tier),
+           _guarded("loglike-assembly", suite_assembly, drv, tier), _guarded("function-wrapper", suite_wrapper, drv, tier),
+           _guarded("evaluate-likelihood", suite_evaluate_likelihood, drv, tier),
+           _guarded("pipeline-replay-under-strategies", suite_pipeline_strategies, drv, tier)]
     c = Corr("strategy-transparency", "exact (bit-identical fingerprints of paired seeded runs; calls == points evaluated on every run)")
     cases = [("tpcn", False, rng.randrange(2 ** 31), "gauss"), ("rwm", True, rng.randrange(2 ** 31), "hole"),
              ("tpcn", False, rng.randrange(2 ** 31), "corner"), ("rwm", False, rng.randrange(2 ** 31), "tiny"),
